@@ -963,6 +963,49 @@ SCC_TABLE = [
 ]
 
 
+def owner_fn(F, f):
+    """The named function a closure (transitively) belongs to; f itself otherwise."""
+    seen = 0
+    while f.is_closure and f.parent in F.fns and seen < 8:
+        f = F.fns[f.parent]
+        seen += 1
+    return f
+
+
+def structural_recursion(F, scc):
+    """True (with a description) when every call between members of the SCC passes, in some argument
+    position, a strict sub-structure (a field, element or child reached through a field) of a
+    parameter of the calling function in the same position: the recursion descends an owned, acyclic
+    in-memory structure and its depth is bounded by the depth of that structure.  Closures in the SCC
+    make the argument flow invisible to this test (it then answers False)."""
+    members = set(scc)
+    if any(F.fns[p].is_closure for p in scc):
+        return False, ""
+    n_edges = 0
+    for p in scc:
+        f = F.fns[p]
+        pv = Prov(f, copies=True)
+        for bi, t, cal in f.calls():
+            if cal is None or not cal.local:
+                continue
+            tgt = [q for q in members if F.fns[q].path == cal.path or F.fns[q].key == cal.key()]
+            if not tgt:
+                continue
+            n_edges += 1
+            ok = False
+            for i, a in enumerate(t["args"]):
+                e = pv.operand(a)
+                par = ("param", i + 1)
+                # the argument is reached from the caller's parameter at the same position through at
+                # least one field projection (a strictly smaller part of it)
+                if mentions(e, lambda x: x[0] == "field" and x[3] is not None and mentions(x[1], lambda y: y == par)):
+                    ok = True
+                    break
+            if not ok:
+                return False, ""
+    return n_edges > 0, "%d recursive call(s), each descending into a field of the caller's own parameter" % n_edges
+
+
 def r07_2(ctx):
     F = ctx.facts
 
@@ -971,8 +1014,9 @@ def r07_2(ctx):
         nodes = [p for p, f in F.fns.items() if not f.derived]
         sccs = cg.sccs(nodes)
         for scc in sccs:
-            keys = sorted({F.fns[p].key for p in scc})
-            f0 = F.fns[scc[0]]
+            # closures are part of the recursion of the function that defines them
+            keys = sorted({owner_fn(F, F.fns[p]).key for p in scc})
+            f0 = owner_fn(F, F.fns[sorted(scc)[0]])
             ident = keys[0]
             entry = None
             for pat, maxn, why in SCC_TABLE:
@@ -988,6 +1032,13 @@ def r07_2(ctx):
             if entry:
                 r.exception(key, entry)
                 r.ob(key, True, f0.site, "reviewed recursion: " + entry)
+                continue
+            try:
+                structural, how = structural_recursion(F, scc)
+            except Exception:
+                structural, how = False, ""
+            if structural:
+                r.ob(key, True, f0.site, "structural recursion over an owned in-memory structure: " + how)
             else:
                 per_byte = all(k.startswith("html::Tokenizer::read_script_data") for k in keys)
                 r.ob(key, False, f0.site,
